@@ -177,6 +177,10 @@ func VerifC16Chunks() {
 		vAssert(false, "C16.chunks.err: fetching failed although sources could be obtained")
 		return
 	}
+	if p == nil {
+		vAssert(false, "C16.chunks.nil: no profile and no error although sources could be obtained")
+		return
+	}
 	vAssert(len(p.Sample) == okCount, "C16.chunks.count: the result does not hold one sample per fetched source")
 	var sum int64
 	prev := -1
